@@ -439,6 +439,10 @@ class NoiseWorld(World):
         ctx, n, gates_j, mode = self.ctx, op["n"], op["gates"], op["mode"]
         n_meas = sum(1 for j in gates_j if j[0] == "MEASURE")
         kw, desired = {}, None
+        if mode in ("save", "desired") and ns > 10 ** 4:
+            # recorded / post-selected outcomes are simulated shot by shot on density matrices: kept to <= 10^4 shots
+            ctx.outcome("simm", "skipped-shot-by-shot-route-too-long")
+            return []
         if mode == "save":
             kw = {"save_mid_circuit_meas": True}
         elif mode == "desired":
